@@ -100,7 +100,7 @@ func (fv *FV) convert(st *State, v Term, to types.Type, c *ast.CallExpr) Term {
 			r.T = to
 			return r
 		}
-		return Term{S: fmt.Sprintf("((_ int2bv %d) %s)", bvWidth(ts), v.S), Sort: ts, T: to}
+		return Term{S: int2bv(v.S, bvWidth(ts)), Sort: ts, T: to}
 	case isBV(v.Sort) && ts == sInt:
 		return Term{S: app("bv2nat", v.S), Sort: sInt, T: to}
 	case isBV(v.Sort) && isBV(ts):
@@ -447,6 +447,30 @@ func (fv *FV) callStatic(st *State, callee *types.Func, recv *Term, recvExpr ast
 		if wantPtr && !havePtr {
 			// x.M() with pointer receiver on an addressable local of non-struct type: box the variable in a fresh
 			// cell for the duration of the call and read it back afterwards (the callee does not retain the pointer)
+			if se, isSel := ast.Unparen(recvExpr).(*ast.SelectorExpr); isSel {
+				// p.f.M() with pointer receiver, f a field of non-struct type reached through pointer p: box the field
+				if selection := fv.info.Selections[se]; selection != nil && selection.Kind() == types.FieldVal {
+					base := fv.evalExpr(st, se.X)
+					if _, isPtr := base.T.Underlying().(*types.Pointer); isPtr && !strings.HasPrefix(recv.Sort, "S_") {
+						cur := *recv
+						key, _ := fv.elemComp(cur.T)
+						cell := fv.newRef(st, "box")
+						E := fv.heapGet(st, key)
+						fv.heapSetNoFrame(st, key, sto(E, cell, sto(sel2(E, cell), "0", cur.S)))
+						fv.declare("sort:ElemPtr", "(declare-datatypes ((ElemPtr 0)) (((mk-eptr (epbase Int) (epidx Int)))))")
+						boxed := Term{S: fmt.Sprintf("(mk-eptr %s 0)", cell), Sort: "ElemPtr", T: types.NewPointer(cur.T)}
+						recv = &boxed
+						unbox = func() {
+							v := cur
+							v.S = sel(sel(fv.heapGet(st, key), cell), "0")
+							v = fv.nameTerm(st, se.Sel.Name, v)
+							fv.storeField(st, base, se.Sel.Name, v, se)
+						}
+						goto boxedField
+					}
+				}
+			}
+			{
 			id, isID := ast.Unparen(recvExpr).(*ast.Ident)
 			if !isID || recv.Sort == sSlice && false {
 				fv.fail(c.Pos(), "method %s needs a pointer receiver, value given", callee.Name())
@@ -468,6 +492,8 @@ func (fv *FV) callStatic(st *State, callee *types.Func, recv *Term, recvExpr ast
 				v.S = sel(sel(fv.heapGet(st, key), cell), "0")
 				fv.setVar(st, obj, fv.nameTerm(st, obj.Name(), v))
 			}
+			}
+		boxedField:
 		}
 		if !wantPtr && havePtr {
 			v := fv.derefRead(st, *recv, c.Pos())
@@ -676,6 +702,27 @@ func (fv *FV) callByContract(st *State, fc *FuncContract, pc *PkgContracts, osig
 	var results []Term
 	for i, t := range rtypes {
 		s := fv.sortOf(t)
+		// a pure function whose contract defines its single result (`ensures result == E`) is inlined as E
+		if fc.Pure && len(rtypes) == 1 {
+			var def SExpr
+			for _, e := range fc.Ensures {
+				if b, ok := e.Expr.(*SBin); ok && b.Op == "==" && fv.tagOK(e.Tags) {
+					if id, ok := b.L.(*SIdent); ok && id.Name == "result" {
+						def = b.R
+						break
+					}
+				}
+			}
+			if def != nil {
+				v, ok := fv.trySpec(&Env{fv: fv, st: st, old: pre, names: env.names, pc: pc, roles: fc.Roles, tsubst: env.tsubst}, def)
+				if ok && v.Sort == s {
+					v.T = t
+					v.Lit = false
+					results = append(results, v)
+					continue
+				}
+			}
+		}
 		r := Term{S: fv.fresh(fmt.Sprintf("%s.r%d", name, i), s), Sort: s, T: t}
 		results = append(results, r)
 		fv.assumeWF(st, r)
@@ -695,6 +742,41 @@ func (fv *FV) callByContract(st *State, fc *FuncContract, pc *PkgContracts, osig
 		fv.assumptions["contract of "+qual(pc, name)+" is assumed, its body is not verified"+why(fc)] = true
 	}
 	return results
+}
+
+func sel2(a, i string) string { return sel(a, i) }
+
+// trySpec translates a contract expression, reporting failure instead of aborting.
+func (fv *FV) trySpec(env *Env, e SExpr) (t Term, ok bool) {
+	defer func() {
+		if r := recover(); r != nil {
+			if _, isU := r.(unsupported); isU {
+				ok = false
+				return
+			}
+			panic(r)
+		}
+	}()
+	return fv.spec(env, e), true
+}
+
+// int2bv pushes the conversion of an integer term to a bit-vector through ite-chains of literals.
+func int2bv(s string, w int) string {
+	if isIntLit(s) {
+		var v uint64
+		fmt.Sscanf(s, "%d", &v)
+		if w < 64 {
+			v &= (1 << uint(w)) - 1
+		}
+		return fmt.Sprintf("(_ bv%d %d)", v, w)
+	}
+	if strings.HasPrefix(s, "(ite ") {
+		parts := splitTop(s[5 : len(s)-1])
+		if len(parts) == 3 {
+			return "(ite " + parts[0] + " " + int2bv(parts[1], w) + " " + int2bv(parts[2], w) + ")"
+		}
+	}
+	return fmt.Sprintf("((_ int2bv %d) %s)", w, s)
 }
 
 func why(fc *FuncContract) string {
